@@ -167,6 +167,11 @@ func c15Run(r *core.Run) {
 		}
 	}
 
+	// A provider whose support changes between calls through the SAME provider value.
+	if r.Item("provider:support-toggles") {
+		c15Toggle(r, quoteRaw, rd)
+		r.EndItem()
+	}
 	// Quote provider behaviours.
 	for _, supported := range []bool{true, false} {
 		for dk := 0; dk < 3; dk++ {
@@ -302,6 +307,52 @@ func c15Judge(r *core.Run, name string, s *c15Script, rd [64]byte, stName, olNam
 	}
 }
 
+// c15Toggle: support withdrawn / regained between calls; every call must follow the provider's
+// CURRENT answer (supported: its bytes and error verbatim; otherwise the device path, which fails
+// here because no device exists at the configured path).
+func c15Toggle(r *core.Run, quoteRaw []byte, rd [64]byte) {
+	c15FlagMu.Lock()
+	defer c15FlagMu.Unlock()
+	fl := flag.Lookup("tdx_guest_device_path")
+	if fl == nil {
+		return
+	}
+	old := fl.Value.String()
+	defer fl.Value.Set(old)
+	fl.Value.Set("/nonexistent/verif-c15-no-device")
+	p := &c15Provider{data: append([]byte(nil), quoteRaw...)}
+	seq := make([]bool, 2+r.T.Draw(5))
+	for i := range seq {
+		seq[i] = r.T.Bool()
+	}
+	seq[0], seq[1] = r.T.Bool(), false
+	seq[1] = !seq[0]
+	for i, sup := range seq {
+		p.supported = sup
+		before := p.nGet
+		var data []byte
+		out := core.Call(func() error {
+			var err error
+			data, err = client.GetRawQuote(p, rd)
+			return err
+		})
+		r.Eval()
+		r.Eventf("toggle call %d supported=%v -> %s", i, sup, errClass(out))
+		if out.Panicked {
+			r.Violate("C15:provider-panic", "toggling provider, call %d: panicked: %s", i, out.PanicVal)
+			return
+		}
+		if sup && (out.Err != nil || !bytes.Equal(data, p.data) || p.nGet != before+1) {
+			r.Violate("C15:provider-support-not-re-evaluated", "call %d: the provider reports support (after earlier calls where it did not), but its quote was not returned verbatim (err=%v, provider asked=%v)", i, out.Err, p.nGet == before+1)
+		}
+		if !sup && (out.Err == nil || len(data) != 0 || p.nGet != before) {
+			r.Violate("C15:provider-support-not-re-evaluated", "call %d: the provider reports NO support (after earlier calls where it did), yet it was used or a quote was returned (err=%v, %d bytes, provider asked=%v)", i, out.Err, len(data), p.nGet != before)
+		}
+	}
+	r.Probe("provider_support_toggles")
+	r.State("provider toggles n=%d", len(seq))
+}
+
 func okStr(b bool) string {
 	if b {
 		return "ok"
@@ -407,7 +458,7 @@ func init() {
 			return 18
 		},
 		Run:         c15Run,
-		MustProbe:   []string{"good_outcome", "earlier_results_rechecked_after_later_calls", "getquote_equals_parse", "fallback_to_device_path", "status0_bad_outlen_0", "status0_bad_outlen_buffer+1"},
+		MustProbe:   []string{"good_outcome", "earlier_results_rechecked_after_later_calls", "getquote_equals_parse", "fallback_to_device_path", "provider_support_toggles", "status0_bad_outlen_0", "status0_bad_outlen_buffer+1"},
 		SimTimeNote: "no clock in this property",
 	})
 }
